@@ -32,6 +32,7 @@ func c09Payload(sender, seq int) string {
 func c09Session(c *Ctx, nSenders, perSender int, pacing string, procs int) {
 	desc := fmt.Sprintf("send session senders=%d lines=%d pacing=%s", nSenders, perSender, pacing)
 	rp := map[string]interface{}{"op": "send-session", "senders": nSenders, "lines_each": perSender, "pacing": pacing}
+	c.Journal(desc)
 	sess, err := newSession(nil, nil)
 	if err != nil {
 		c.Res.Inconclusive++
